@@ -134,6 +134,21 @@ func TestVerif_Olla(t *testing.T) {
 				stk.healthRound()
 				known := stk.verifOllaKnown()
 				emit("Health", "status", stk.statuses(), "known", known)
+			case "list":
+				lr := zzverif.Do(stk.addr, &zzverif.Req{Method: "GET", Target: "/olla/" + st.Route + "/v1/models", Timeout: 10 * time.Second})
+				ids := []string{}
+				var parsed struct {
+					Data []struct {
+						ID string `json:"id"`
+					} `json:"data"`
+				}
+				if json.Unmarshal(lr.Body, &parsed) == nil {
+					for _, d := range parsed.Data {
+						ids = append(ids, d.ID)
+					}
+				}
+				sort.Strings(ids)
+				emit("List", "route", st.Route, "ids", ids, "st", lr.Status)
 			case "req":
 				reqNo++
 				prefix := "/olla/proxy"
